@@ -27,13 +27,11 @@ namespace C13
 inductive PanicSite where
   | unlisted              -- hypothetical: a panic inside a State method at a place that is no row of the table (injected by `KLoc.fault`)
   | listRulesNil          -- core/location.go Location.ListRules: `sr.Found` of a nil *SearchResults (no assertion: outside the table)
-  | serviceUriNotString   -- service/service.go Service.ProcessRequest: `u.(string)`
 deriving DecidableEq, Repr
 
 def PanicSite.name : PanicSite → String
   | .unlisted => "(unlisted)"
   | .listRulesNil => "Location.ListRules"
-  | .serviceUriNotString => "Service.ProcessRequest"
 
 /-- how a row of the extracted table is accounted for -/
 inductive Cls where
@@ -98,7 +96,6 @@ def accounted : List (C13Gen.Site × Cls) := [
   (⟨"service/service.go", "GetStringParam", "assert", "v.(string)"⟩, .safe tsw),
   (⟨"service/service.go", "GetStringParam", "assert", "x.(string)"⟩, .safe tsw),
   (⟨"service/service.go", "Service.ProcessRequest", "assert", "limit.(float64)"⟩, .outOfScope "admin endpoint /api/sys/admin/timers/get; not an operation on facts, rules, queries or events"),
-  (⟨"service/service.go", "Service.ProcessRequest", "assert", "u.(string)"⟩, .modelled .serviceUriNotString),
   (⟨"service/service.go", "Service.ProcessRequest", "panic", "panic(message)"⟩, .outOfScope "admin endpoint /api/sys/admin/panic panics on purpose"),
   (⟨"service/service.go", "getMapParam", "assert", "v.(map[string]interface{})"⟩, .safe tsw),
   (⟨"sys/system.go", "GetStorage", "assert", "n.(string)"⟩, .outOfScope "start-up storage configuration"),
@@ -863,12 +860,13 @@ def httpFront (r : HttpReq) : Res Obj :=
     | none => .err "syntax"
   else .ok []
 
-/-- `ProcessRequest` called as a library function -/
+/-- `ProcessRequest` called as a library function: a "uri" that is not a string is an error (the unchecked assertion
+`u.(string)` was repaired in /repo) -/
 def serviceFront (m : Obj) : Res Unit :=
   match m.get? "uri" with
   | none => .err "nouri"
   | some (.str _) => .ok ()
-  | some _ => .panic .serviceUriNotString
+  | some _ => .err "baduri"
 
 /-! ## 6. The public operations as one type -/
 
